@@ -1424,6 +1424,107 @@ def desugar_iter_closures(d):
     return sorted(set(done))
 
 
+SROA_SKIP = ("style::Template::from_str_with_tab_width",)     # rules on the parser are written against its `(state, c)` scrutinee
+
+
+def split_local_tuples(d):
+    """Scalar replacement of match-scrutinee tuples: a local of tuple type that is built once by a tuple aggregate and only ever
+    read component-wise (`match (self.is_finished(), self.len) { (false, Some(len)) => .. }`, `match (width, &self.status)`) is
+    replaced by one local per component, assigned where the tuple was built. Tests on `_t.0` / `*(_t.1)` then are tests on the
+    values themselves, as in the nested `if`/`match` the tuple form abbreviates. Returns the number of tuples split."""
+    import copy
+    n_split = 0
+    for b in d["bodies"]:
+        if b["def"] in SROA_SKIP or len(b["blocks"]) > 900:
+            continue
+        nloc = len(b["locals"])
+        defs = {}
+        whole = set()
+
+        def scan(x, is_def_lhs=False):
+            if isinstance(x, list):
+                for v in x:
+                    scan(v)
+            elif isinstance(x, dict):
+                if "l" in x and "p" in x and isinstance(x["l"], int) and isinstance(x["p"], list):
+                    if not is_def_lhs:
+                        pr = x["p"]
+                        if not pr or not (isinstance(pr[0], dict) and "f" in pr[0] and "dc" not in pr[0]):
+                            whole.add(x["l"])
+                    for e in x["p"]:
+                        scan(e)
+                    return
+                for v in x.values():
+                    scan(v)
+        for bi, blk in enumerate(b["blocks"]):
+            for si, st in enumerate(blk.get("stmts", [])):
+                if st.get("k") == "assign":
+                    lhs = st["lhs"]
+                    if not lhs["p"] and st["rv"].get("k") == "agg" and st["rv"].get("ak") == "tuple" and (b["locals"][lhs["l"]].get("ty") or "").startswith("("):
+                        defs.setdefault(lhs["l"], []).append((bi, si))
+                        scan(st["rv"])
+                        continue
+                    if not lhs["p"]:
+                        defs.setdefault(lhs["l"], []).append(None)       # another kind of definition
+                    else:
+                        scan(lhs)                                        # a partial store counts as a use of the projection
+                        if not (isinstance(lhs["p"][0], dict) and "f" in lhs["p"][0]):
+                            whole.add(lhs["l"])
+                        else:
+                            defs.setdefault(lhs["l"], []).append(None)   # component stores: leave such tuples alone
+                    scan(st["rv"])
+                else:
+                    scan(st)
+            t = blk.get("term")
+            if t:
+                if t.get("k") == "call" and isinstance(t.get("dest"), dict):
+                    dl = t["dest"]
+                    defs.setdefault(dl["l"], []).append(None)
+                scan(t)
+        cands = [l for l, ds in defs.items() if len(ds) == 1 and ds[0] is not None and l not in whole and l > b.get("arg_count", 0) and l != 0]
+        if not cands:
+            continue
+        new_of = {}
+        for l in cands:
+            bi, si = defs[l][0]
+            st = b["blocks"][bi]["stmts"][si]
+            ops = st["rv"]["ops"]
+            tys = []
+            for o in ops:
+                ty = (o.get("place") or {}).get("ty") if o.get("k") in ("move", "copy") else o.get("ty")
+                tys.append(ty or "?")
+            if "?" in tys:
+                continue
+            ids = []
+            for ty in tys:
+                b["locals"].append({"ty": ty, "head": ty.split("<")[0].lstrip("&").replace("mut ", "") if ty else None})
+                ids.append(len(b["locals"]) - 1)
+            new_of[l] = ids
+            repl = [{"k": "assign", "lhs": {"l": ids[k], "p": [], "ty": tys[k]}, "rv": {"k": "use", "op": copy.deepcopy(ops[k])}, "line": st.get("line", 0)} for k in range(len(ops))]
+            b["blocks"][bi]["stmts"][si:si + 1] = repl
+            # later (bi, si) indices in the same block shift: recompute lazily by re-reading defs is not needed (one def per local)
+            for l2, ds2 in defs.items():
+                if l2 != l and ds2 and ds2[0] is not None and ds2[0][0] == bi and ds2[0][1] > si:
+                    ds2[0] = (bi, ds2[0][1] + len(repl) - 1)
+            n_split += 1
+
+        def rewrite(x):
+            if isinstance(x, list):
+                return [rewrite(v) for v in x]
+            if isinstance(x, dict):
+                if "l" in x and "p" in x and isinstance(x["l"], int) and x["l"] in new_of and x["p"] and isinstance(x["p"][0], dict) and "f" in x["p"][0] \
+                        and isinstance(x["p"][0]["f"], int) and x["p"][0]["f"] < len(new_of[x["l"]]):
+                    out = dict(x)
+                    out["l"] = new_of[x["l"]][x["p"][0]["f"]]
+                    out["p"] = [rewrite(e) for e in x["p"][1:]]
+                    return out
+                return {k: rewrite(v) for k, v in x.items()}
+            return x
+        if new_of:
+            b["blocks"] = rewrite(b["blocks"])
+    return n_split
+
+
 class Crate:
     def __init__(self, path, config):
         with open(path) as fh:
@@ -1431,6 +1532,7 @@ class Crate:
         self.renames = canonicalise_renames(d)
         self.inlined = inline_new_helpers(d)
         self.desugared = desugar_iter_closures(d)
+        self.split_tuples = split_local_tuples(d)
         if self.desugared:
             self.inlined = self.inlined + ["(loop form of) " + x for x in self.desugared]
         self.config = config
